@@ -122,6 +122,9 @@ struct Result {
   uint64_t hash = 0;    // identity of the execution (event log + observations)
   bool nontrivial = false;
   std::vector<std::string> notes;  // NOTE lines (out-of-scope observations)
+  std::string extra;               // extra key=value tokens for the R line
+  std::vector<uint32_t> sched;     // scheduler decisions actually taken (threaded engine)
+  bool has_sched = false;
 };
 
 struct Stats {
@@ -218,6 +221,10 @@ inline int engine_main(int argc, char** argv, Engine& eng) {
       bool stable = r2.violation && r2.vclass == r.vclass && r2.hash == r.hash;
       std::string path = outdir + "/viol_" + eng.name + "_" + p.property + "_" + std::to_string(seed) + "_" +
                          std::to_string(run) + ".replay";
+      if (r.has_sched) {  // make the replay file explicit: recorded decisions, replay strategy
+        p.sched = r.sched;
+        p.cfg["strategy"] = "5";
+      }
       p.save(path);
       printf("DETAIL %s\n", r.detail.c_str());
       printf("R %llu %016llx VIOL nt=%d ops=%016llx class=%s sig=%s stable=%d file=%s\n", (unsigned long long)run,
@@ -226,8 +233,8 @@ inline int engine_main(int argc, char** argv, Engine& eng) {
       if (++viol >= max_viol) break;
     } else {
       if (dump || true)
-        printf("R %llu %016llx ok nt=%d ops=%016llx\n", (unsigned long long)run, (unsigned long long)r.hash,
-               int(r.nontrivial), (unsigned long long)p.ops_hash());
+        printf("R %llu %016llx ok nt=%d ops=%016llx %s\n", (unsigned long long)run, (unsigned long long)r.hash,
+               int(r.nontrivial), (unsigned long long)p.ops_hash(), r.extra.c_str());
       if (samples_left > 0 && r.nontrivial) {
         samples_left--;
         std::string s;
@@ -248,7 +255,10 @@ inline int engine_main(int argc, char** argv, Engine& eng) {
 // Sanitizer defaults: exit code 77 on error, no leak check (the Unicode table
 // buffer is intentionally immortal; see DESIGN 2.1).
 extern "C" __attribute__((used, visibility("default"))) const char* __asan_default_options() {
-  return "exitcode=77:detect_leaks=0:abort_on_error=0:allocator_may_return_null=1";
+  // small quarantine + never release memory to the OS: first-touch page faults are very expensive in this VM
+  // and serialise the workers otherwise (measured: 16 workers 13.3 s -> 2.3 s for the same work)
+  return "exitcode=77:detect_leaks=0:abort_on_error=0:allocator_may_return_null=1:quarantine_size_mb=1:"
+         "thread_local_quarantine_size_kb=16:allocator_release_to_os_interval_ms=-1:malloc_context_size=2";
 }
 extern "C" __attribute__((used, visibility("default"))) const char* __ubsan_default_options() {
   return "halt_on_error=1:exitcode=77:print_stacktrace=1";
